@@ -1,4 +1,4 @@
-import PyseqmVerif.Properties.Census
+import PyseqmVerif.Properties.CensusLoops
 import PyseqmVerif.Proofs.ScfLemmas
 import PyseqmVerif.Proofs.SP2Lemmas
 import PyseqmVerif.Generated.Constants
